@@ -298,6 +298,40 @@ MC_INIT
         check_all(m, len, 0, seedsel ? 0xFF : 0, "alphabet5");
     });
 
+    // (f) lengths beyond the 8-bit range for the routines whose length parameter is wider (crc16: uint16_t,
+    //     crc32: uint32_t, the streaming CRC-8 has no length): a narrow loop counter would wrap here
+    mc::add_check("long_messages_wide_length", [] {
+        static const int L[] = {255, 256, 257, 258, 259, 511, 512, 513, 1000, 4095, 4096, 4097, 65533, 65534, 65535};
+        int li = mc::choose(15);
+        int fam = mc::choose(6);
+        int align = mc::choose(4);
+        int len = L[li];
+        std::vector<uint8_t> m(len, 0);
+        switch (fam)
+        {
+        case 1:
+            memset(m.data(), 0xFF, len);
+            break;
+        case 2:
+            for (int i = 0; i < len; i++)
+                m[i] = (uint8_t)(i * 7 + (i >> 8) + 1);
+            break;
+        case 3:
+            m[0] = 0x80;
+            break;
+        case 4:
+            m[len - 1] = 0x01;
+            break;
+        case 5:
+            m[len / 2] = 0x10;
+            m[len > 255 ? 255 : 0] ^= 0x04;
+            break;
+        }
+        mc::describe("len=%d family=%d align=%d", len, fam, align);
+        mc::nontrivial();
+        check_all(m.data(), len, align, 0x3C, "long");
+    });
+
     // (e) every length 0..40 at every alignment 0..7, exactly sized
     mc::add_check("alignment_x_length", [] {
         int len = mc::choose(41);
